@@ -543,7 +543,7 @@ class Gen:
 
     def stylesheet(self):
         r = self.rng
-        return '\n'.join(self.statement(0) for _ in range(r.choice([1, 1, 2, 3, 4]))) + '\n'
+        return '\n'.join(self.statement(0) for _ in range(r.choice([1, 1, 2, 2, 3]))) + '\n'
 
 
 def gen_case(rng):
@@ -601,7 +601,7 @@ def meaning(text):
     """Token stream of emitted CSS with every escape resolved and quote marks dropped: what the text says, not how."""
     out = []
     glue = False
-    for kind, t in css.scan(noblank(text)):
+    for kind, t in css.scan(noblank(css.strip_header(text))):
         if kind == 'ws':
             glue = False
             continue
@@ -674,71 +674,98 @@ def with_chars(atom, idx):
     return atom['carrier'] % (q + body + q)
 
 
-def minimize(ctx, atom, first):
-    """Delta debugging over the characters of a failing string/identifier: drop characters while it still fails.
-    -> (source, kept characters, result)"""
-    idx = list(range(len(atom['chars'])))
-    res = first
-    while len(idx) > 1:
-        cands = [idx[:k] + idx[k + 1:] for k in range(len(idx))]
-        if not atom.get('q'):
-            # dropping a character must not put a digit right after a hyphen: that is a number, not an identifier
-            ch = atom['chars']
-            cands = [c for c in cands if not any(ch[c[j]] == '-' and ch[c[j + 1]].isdigit() for j in range(len(c) - 1))]
-        rs = round_trip(ctx, [with_chars(atom, c) for c in cands])
-        for c, r in zip(cands, rs):
-            if r[0] == 'bad':
-                idx, res = c, r
-                break
-        else:
-            break
-    return with_chars(atom, idx), [atom['chars'][i] for i in idx], res
+def candidates(atom, idx):
+    cands = [idx[:k] + idx[k + 1:] for k in range(len(idx))]
+    if not atom.get('q'):
+        # dropping a character must not put a digit right after a hyphen: that is a number, not an identifier
+        ch = atom['chars']
+        cands = [c for c in cands if not any(ch[c[j]] == '-' and ch[c[j + 1]].isdigit() for j in range(len(c) - 1))]
+    return cands
 
 
 def cached_round_trip(ctx, srcs):
     cache = ctx.__dict__.setdefault('_c09_cache', {})
     todo = [s for s in dict.fromkeys(srcs) if s not in cache]
     if todo:
-        if len(cache) > 20000:
+        if len(cache) > 50000:
             cache.clear()
         for s, r in zip(todo, round_trip(ctx, todo)):
             cache[s] = r
-    return [cache[s] for s in srcs]
+    return [cache[s] if s in cache else ('skip', 'evicted') for s in srcs]
 
 
-def isolate(ctx, case, observed, detail):
-    """The whole stylesheet failed: find the smallest parts that fail on their own."""
-    atoms = case['atoms']
-    res = cached_round_trip(ctx, [a['alone'] for a in atoms])
-    for i, a in enumerate(atoms):
-        # Sass passes an unquoted url() through as written; if the first compile did not, the case is not about reading back
-        if res[i][0] == 'bad' and 'must_contain' in a and a['must_contain'] not in res[i][3]:
-            ctx.stat('first_output_changed_the_url')
-            res[i] = ('skip', 'first_output_changed_the_url')
-    failing = [(a, r) for a, r in zip(atoms, res) if r[0] == 'bad']
-    if not failing:
-        kinds = sorted(set(a['kind'] for a in atoms))
-        ctx.violation('combination|no-part-fails-alone|observed=%s' % observed, {'src': case['src'], 'part': 'combination|no-part-fails-alone'},
-                      dict(detail, parts=kinds[:20]))
-        return
-    # a failing container (selector, value list, call) is only news if none of its own parts fails
-    leaf = [(a, r) for a, r in failing if a['kind'] not in ('selector', 'value-list', 'call', 'attribute-selector')]
-    for a, r in (leaf or failing):
-        if 'chars' not in a or not a['chars']:
-            ctx.violation('%s|observed=%s' % (a['kind'], r[1]), {'src': a['alone'], 'part': a['kind']}, r[2])
+def isolate_many(ctx, failing):
+    """failing: [(case, result)] of stylesheets that did not come back unchanged.  Finds for each the smallest parts that
+    fail on their own: first every construct alone, then (strings, identifiers) delta debugging over the characters:
+    drop characters while it still fails.  All of it in lockstep, so that the driver sees few, large batches."""
+    srcs = []
+    for case, res in failing:
+        srcs += [a['alone'] for a in case['atoms']]
+    rs = cached_round_trip(ctx, srcs)
+    todo, seen = [], set()
+    k = 0
+    for case, res in failing:
+        atoms = case['atoms']
+        r = list(rs[k:k + len(atoms)])
+        k += len(atoms)
+        for i, a in enumerate(atoms):
+            # Sass passes an unquoted url() through as written; if the first compile did not, the case is not about reading back
+            if r[i][0] == 'bad' and 'must_contain' in a and a['must_contain'] not in r[i][3]:
+                ctx.stat('first_output_changed_the_url')
+                r[i] = ('skip', 'first_output_changed_the_url')
+        bad = [(a, x) for a, x in zip(atoms, r) if x[0] == 'bad']
+        if not bad:
+            kinds = sorted(set(a['kind'] for a in atoms))
+            ctx.violation('combination|no-part-fails-alone|observed=%s' % res[1], {'src': case['src'], 'part': 'combination|no-part-fails-alone'},
+                          dict(res[2], parts=kinds[:20]))
             continue
-        src, kept, x = minimize(ctx, a, r)
+        # a failing container (selector, value list, call) is only news if none of its own parts fails
+        leaf = [(a, x) for a, x in bad if a['kind'] not in ('selector', 'value-list', 'call', 'attribute-selector')]
+        for a, x in (leaf or bad):
+            if a['alone'] in seen:
+                continue
+            seen.add(a['alone'])
+            if not a.get('chars'):
+                ctx.violation('%s|observed=%s' % (a['kind'], x[1]), {'src': a['alone'], 'part': a['kind']}, x[2])
+            else:
+                todo.append({'atom': a, 'idx': list(range(len(a['chars']))), 'res': x, 'done': False})
+    while True:
+        jobs = []
+        for st in todo:
+            if st['done'] or len(st['idx']) <= 1:
+                st['done'] = True
+                continue
+            st['cands'] = candidates(st['atom'], st['idx'])
+            jobs += [with_chars(st['atom'], c) for c in st['cands']]
+        if not jobs:
+            break
+        rs = cached_round_trip(ctx, jobs)
+        pos = 0
+        for st in todo:
+            if st['done']:
+                continue
+            n = len(st['cands'])
+            sub = rs[pos:pos + n]
+            pos += n
+            for c, x in zip(st['cands'], sub):
+                if x[0] == 'bad':
+                    st['idx'], st['res'] = c, x
+                    break
+            else:
+                st['done'] = True
+    for st in todo:
+        a, x = st['atom'], st['res']
         seq = []
-        for c in kept:
-            k = sclass(c)
-            if not seq or seq[-1] != k:
-                seq.append(k)
+        for c in (a['chars'][i] for i in st['idx']):
+            kk = sclass(c)
+            if not seq or seq[-1] != kk:
+                seq.append(kk)
         if 'string' in a['kind']:
             seq = sorted(set(seq))  # inside quotes the order of the characters does not matter
         part = '%s|chars=%s' % (a['kind'], ','.join(seq))
         if x[1] == 'respelled':
             part = a['kind']        # the characters only matter through the escape that writes them
-        ctx.violation('%s|observed=%s' % (part, x[1]), {'src': src, 'part': part}, x[2])
+        ctx.violation('%s|observed=%s' % (part, x[1]), {'src': with_chars(a, st['idx']), 'part': part}, x[2])
 
 
 def judge(ctx, case, res):
@@ -762,10 +789,7 @@ def judge(ctx, case, res):
         ctx.stat('first_output_changed_the_url')
         return
     ctx.stat('round_trips_failing')
-    if case.get('atoms'):
-        isolate(ctx, case, res[1], res[2])
-    else:
-        ctx.violation('stylesheet|observed=%s' % res[1], {'src': case['src'], 'part': 'stylesheet'}, res[2])
+    return True
 
 
 def check_case(ctx, case):
@@ -773,7 +797,10 @@ def check_case(ctx, case):
     res = round_trip(ctx, [case['src']])[0]
     ctx.ran(2)
     if res[0] == 'bad':
-        ctx.violation('%s|observed=%s' % (case.get('part', 'stylesheet'), res[1]), case, res[2])
+        part = case.get('part', 'stylesheet')
+        if res[1] == 'respelled':
+            part = part.split('|chars=')[0]
+        ctx.violation('%s|observed=%s' % (part, res[1]), case, res[2])
     elif res[0] == 'skip':
         ctx.undecided(res[1])
 
@@ -786,5 +813,6 @@ def worker(ctx):
             ctx.sample({'src': cs[0]['src']})
             first = False
         res = round_trip(ctx, [c['src'] for c in cs])
-        for c, r in zip(cs, res):
-            judge(ctx, c, r)
+        failing = [(c, r) for c, r in zip(cs, res) if judge(ctx, c, r)]
+        if failing:
+            isolate_many(ctx, failing)
